@@ -301,6 +301,7 @@ static void gen_small_row(struct vf_rng *r, uint8_t *row, int rowno)
  * first.  Only the packet that holds `lo` is sent: code 0x01 (normal page) for the listed pages, 0x00 elsewhere. */
 static int f_tn;                   /* transmission number of the case (selects the network family) */
 static int f_hex_pgno;             /* the page with a hexadecimal number in this transmission, or 0 */
+static int f_clock_pgno;           /* the page with a four digit subcode, or 0 */
 
 static int mip_slot(int lo, int *entry)
 {
@@ -340,6 +341,7 @@ static void gen_small_network(struct vf_rng *r)
 	static const int rowpool[] = { 1, 2, 3, 4, 5, 10, 11, 22, 23, 24 };
 	int npages, nm, mags[3], i, j, ntx, clock = 43200, last_pg[8], rot, np = 0, chain_sub = -1;
 
+	f_clock_pgno = 0;
 	net_serial = vf_chance(r, 1, 2);
 	net_region = 16;
 	attr_seen = 0;
@@ -368,6 +370,16 @@ static void gen_small_network(struct vf_rng *r)
 	 * (no other header of the magazine in between), and the carousel comes round again */
 	rot = (int)vf_below(r, (unsigned)npages);
 	pd[rot].nsub = 2;
+	/* In two transmissions of three one other page carries a four digit subcode (clock time, S3 and S4 not zero):
+	 * the subcode then is two Hamming protected byte pairs, both of which must be intact for the header to count. */
+	if (f_tn % 3 != 0) {
+		static const uint16_t clock[] = { 0x0115, 0x1234, 0x2359, 0x0900, 0x1007, 0x2100 };
+		int k;
+		do k = (int)vf_below(r, (unsigned)npages); while (k == rot);
+		pd[k].nsub = 1;
+		pd[k].sub[0] = clock[vf_below(r, sizeof clock / sizeof clock[0])];
+		f_clock_pgno = pd[k].pgno;
+	}
 	/* Every third transmission has a page with a hexadecimal number (a page the decoder cannot classify by its
 	 * number): it is received while its function is unknown, then a MIP declares it a normal page, then it comes
 	 * again.  Rows reach the cache on the first reception without the decoder knowing that they are text. */
@@ -672,6 +684,7 @@ static int run_faults(struct vf_rng *r, long idx)
 			  tn, net_serial ? "serial" : "parallel", n_tx, n_pk, S0.nk, S0.nev);
 		vf_count("transmissions", 1);
 		if (f_hex_pgno) vf_count("transmissions_with_hex_page_and_mip", 1);
+		if (f_clock_pgno) vf_count("transmissions_with_four_digit_subcode", 1);
 		vf_count("transmission_packets", n_pk);
 		/* the fault-free run itself must be reproducible and contain only transmitted pages */
 		run_stream(pks, n_pk, NULL, &SC);
